@@ -37,13 +37,15 @@ LEVEL_TEXT = ('The claim "both matcher configurations return the same mappings" 
               'as a false full statement with witnesses, and reported as known findings. Memory safety of the matcher is part of the '
               'model: every access to the five arrays get_mapping allocates is guarded by the element counts regenerated from the '
               'PyMem_Malloc / memset expressions of the .pyx, and compiled_matcher_memory_safe proves that no guard fails on any buffer '
-              'the structure encoder can produce (stack pointer <= query atoms x molecule atoms).')
+              'the structure encoder can produce (stack pointer <= query atoms x molecule atoms); compiled_matcher_returns_normally adds that '
+              'on the encoders\' outputs every buffer read (incl. the reads of the yielded mapping) is in range and the search ends.')
 LEVEL_NOTE = ('Lean kernel; hand-written model validated by correspondence (not a proof about the Python/Cython text); gen_bitlayout, '
               'gen_periodic, gen_query translators; the compiled extension cannot be built here: `_isomorphism.pyx` runs through the '
               'pyx2py rendering (C integer semantics emulated; out-of-bounds accesses raise), so memory safety is proved of the model with '
               'the regenerated allocation sizes and tied by the tracked-array stream, not of the compiled artefact itself; the stereo '
               'post-filter of QueryIsomorphism.get_mapping is code shared by both paths and is only compared, not modelled.')
-TECHNIQUE = 'Lean 4 theorems over an executable model of the bit layout and both matchers + regenerated literals + differential execution'
+TECHNIQUE = ('Lean 4 theorems over an executable model of the bit layout and both matchers (the compiled one with every array access '
+             'guarded by the allocation sizes regenerated from the .pyx) + regenerated literals + differential execution incl. tracked arrays')
 HAS_DRIVER = True
 EXTRA_MODULES = []
 FINDINGS_MODULE = 'ChythonModel.Findings.C09'
